@@ -11,11 +11,11 @@ SIM = dict(MaxStmts=30, MaxDepth=5, MaxUnits=3, MaxVar=30, UnitKinds="AllUnits",
            NameChoices="Set01", EndForms="Set012", LabelStmts="TRUE", Contains="TRUE", InsSet="InsAll", MinEdits=1, Randomised="TRUE", DumpMod=1, NRepl=17, RichOnly="FALSE", NeedStruct="FALSE", MaxRich="<- Unlimited")
 TABLE = {
     "Perturb_c11_quick": dict(BASE, PKinds="KCmt", MaxEdits=1, DumpMod=16),
-    "Perturb_c11_thorough": dict(BASE, PKinds="KCmt", MaxEdits=1, MaxStmts=4),
+    "Perturb_c11_thorough": dict(BASE, PKinds="KCmt", MaxEdits=1, DumpMod=2),
     "Perturb_c11_sim": dict(SIM, PKinds="KCmt", MaxEdits=5),
     # two statements on one line (';') with a trailing comment behind them
     "Perturb_c11j_quick": dict(BASE, PKinds="KCmtJoin", MaxEdits=1, DumpMod=9),
-    "Perturb_c11j_thorough": dict(BASE, PKinds="KCmtJoin", MaxEdits=1, MaxStmts=4, DumpMod=1),
+    "Perturb_c11j_thorough": dict(BASE, PKinds="KCmtJoin", MaxEdits=1, DumpMod=1),
     # comment placements on the statements that hold a character literal (the literal continued around a comment line, a trailing
     # comment on a line continued after the literal): one such statement per program, every placement
     "Perturb_c11s_quick": dict(BASE, PKinds="KCmt", MaxEdits=1, MaxStmts=2, UnitKinds="SubOnly", ConKinds="Empty", SpecKinds="Empty", Contains="FALSE",
@@ -23,29 +23,29 @@ TABLE = {
     "Perturb_c11s_thorough": dict(BASE, PKinds="KCmt", MaxEdits=2, MaxStmts=2, UnitKinds="SubOnly", ConKinds="Empty", SpecKinds="Empty", Contains="FALSE",
                                   SimpleV="StrSplitS", DeclV="StrSplitDecl", MaxRich="<- Unlimited", NameChoices="Set1", EndForms="Set02", DumpMod=3),
     "Perturb_c14_quick": dict(BASE, PKinds="KCpp", MaxEdits=1, DumpMod=16),
-    "Perturb_c14_thorough": dict(BASE, PKinds="KCpp", MaxEdits=1, MaxStmts=4),
+    "Perturb_c14_thorough": dict(BASE, PKinds="KCpp", MaxEdits=1, DumpMod=3),
     "Perturb_c14_sim": dict(SIM, PKinds="KCmtCpp", MaxEdits=5),
     "Perturb_c07_quick": dict(BASE, PKinds="KGarb", MaxEdits=1, DumpMod=8),
-    "Perturb_c07_thorough": dict(BASE, PKinds="KGarb", MaxEdits=1, MaxStmts=4),
+    "Perturb_c07_thorough": dict(BASE, PKinds="KGarb", MaxEdits=1, DumpMod=1),
     "Perturb_c07_sim": dict(SIM, PKinds="KGarbLay", MaxEdits=4),
     "Perturb_c08_quick": dict(BASE, PKinds="KStruct", MaxEdits=1, ConKinds="NestCons", DumpMod=11),
     "Perturb_c08b_quick": dict(BASE, PKinds="KRenCmt", MaxEdits=2, MinEdits=2, NeedStruct="TRUE", ConKinds="NestCons", DumpMod=2, NCmtCls=2, NCppForms=2),
-    "Perturb_c08b_thorough": dict(BASE, PKinds="KRenCmt", MaxEdits=2, MinEdits=2, NeedStruct="TRUE", ConKinds="NestCons", MaxStmts=4, DumpMod=1, NCmtCls=3, NCppForms=4),
-    "Perturb_c08_thorough": dict(BASE, PKinds="KStruct", MaxEdits=1, ConKinds="NestCons", MaxStmts=4),
+    "Perturb_c08b_thorough": dict(BASE, PKinds="KRenCmt", MaxEdits=2, MinEdits=2, NeedStruct="TRUE", ConKinds="NestCons", DumpMod=1, NCmtCls=3, NCppForms=4),
+    "Perturb_c08_thorough": dict(BASE, PKinds="KStruct", MaxEdits=1, ConKinds="NestCons", DumpMod=2),
     "Perturb_c08_sim": dict(SIM, PKinds="KStructCmt", MaxEdits=3),
     # the construct kinds the first family leaves out (FORALL, ASSOCIATE, CRITICAL, SELECT TYPE, DO CONCURRENT) and TYPE / INTERFACE / ENUM definitions
     # a surplus / missing parenthesis at every token boundary of every opener / construct-part variant, one construct per program
     "Perturb_c08p_quick": dict(BASE, MaxStmts=2, MaxDepth=2, MaxRich="= 1", MaxVar=30, UnitKinds="SubOnly", ConKinds="AllCons", SpecKinds="Empty", PKinds="KPar", MaxEdits=1,
                                NameChoices="Set0", EndForms="Set1", Contains="FALSE", DumpMod=1),
-    "Perturb_c08p_thorough": dict(BASE, MaxStmts=3, MaxDepth=2, MaxRich="= 1", MaxVar=30, UnitKinds="SubOnly", ConKinds="AllCons", SpecKinds="Empty", PKinds="KPar", MaxEdits=1,
+    "Perturb_c08p_thorough": dict(BASE, MaxStmts=2, MaxDepth=2, MaxRich="= 1", MaxVar=30, UnitKinds="SubOnly", ConKinds="AllCons", SpecKinds="Empty", PKinds="KPar", MaxEdits=1,
                                   NameChoices="Set01", EndForms="Set02", Contains="FALSE", DumpMod=1),
     "Perturb_c08c_quick": dict(BASE, PKinds="KStruct", MaxEdits=1, ConKinds="NestCons2", SpecKinds="AllSpec", UnitKinds="SubMod", DumpMod=23),
-    "Perturb_c08c_thorough": dict(BASE, PKinds="KStruct", MaxEdits=1, ConKinds="NestCons2", SpecKinds="AllSpec", UnitKinds="SubMod", MaxStmts=4),
+    "Perturb_c08c_thorough": dict(BASE, PKinds="KStruct", MaxEdits=1, ConKinds="NestCons2", SpecKinds="AllSpec", UnitKinds="SubMod", DumpMod=3),
     "Perturb_c13_quick": dict(BASE, PKinds="KInc", MaxEdits=2, DumpMod=32),
-    "Perturb_c13_thorough": dict(BASE, PKinds="KInc", MaxEdits=2, MaxStmts=4),
+    "Perturb_c13_thorough": dict(BASE, PKinds="KInc", MaxEdits=2, DumpMod=4),
     "Perturb_c13_sim": dict(SIM, PKinds="KInc", MaxEdits=3),
     "Perturb_c04_quick": dict(BASE, PKinds="KLayout1", MaxEdits=1, DumpMod=9),
-    "Perturb_c04_thorough": dict(BASE, PKinds="KLayout1", MaxEdits=2, MaxStmts=4),
+    "Perturb_c04_thorough": dict(BASE, PKinds="KLayout1", MaxEdits=1, DumpMod=2),
     "Perturb_c04_sim": dict(SIM, PKinds="KLayout", MaxEdits=8, MinEdits=4),
     # every catalogue variant (at most one non-default variant per program) continued at every token boundary, in every continuation style
     "Perturb_c04v_exec_quick": dict(BASE, MaxStmts=2, MaxRich="= 1", MaxVar=30, UnitKinds="SubOnly", ConKinds="SweepCons", SpecKinds="Empty", SimpleV="SimpleAll", PKinds="KBrk",
@@ -68,12 +68,12 @@ TABLE = {
     "Perturb_c06_type_quick": dict(BASE, MaxStmts=4, MaxRich="= 1", MaxVar=30, UnitKinds="ModOnly", ConKinds="Empty", SpecKinds="AllSpec", CompV="CompAll", TbindV="TbindAll",
                                    PKinds="KMut", NameChoices="Set1", EndForms="Set1", Contains="FALSE", RichOnly="TRUE", DumpMod=79),
     "Perturb_c06_exec_thorough": dict(BASE, MaxRich="= 1", MaxVar=30, UnitKinds="SubOnly", ConKinds="SweepCons", SpecKinds="Empty", SimpleV="SimpleAll", PKinds="KMut",
-                                      NameChoices="Set1", EndForms="Set1", Contains="FALSE", RichOnly="TRUE", DumpMod=5),
-    "Perturb_c06_spec_thorough": dict(BASE, MaxStmts=4, MaxRich="= 1", MaxVar=30, UnitKinds="SweepUnits", ConKinds="Empty", SpecKinds="AllSpec", DeclV="DeclAll", UseV="UseAll",
-                                      FormatV="FormatAll", CompV="CompAll", TbindV="TbindAll", PKinds="KMut", NameChoices="Set1", EndForms="Set1", Contains="FALSE", RichOnly="TRUE", DumpMod=19),
+                                      NameChoices="Set1", EndForms="Set1", Contains="FALSE", RichOnly="TRUE", DumpMod=15),
+    "Perturb_c06_spec_thorough": dict(BASE, MaxStmts=3, MaxRich="= 1", MaxVar=30, UnitKinds="SweepUnits", ConKinds="Empty", SpecKinds="AllSpec", DeclV="DeclAll", UseV="UseAll",
+                                      FormatV="FormatAll", CompV="CompAll", TbindV="TbindAll", PKinds="KMut", NameChoices="Set1", EndForms="Set1", Contains="FALSE", RichOnly="TRUE", DumpMod=40),
     "Perturb_c06_sim": dict(SIM, PKinds="KMut", MaxEdits=3),
     "Perturb_c15_quick": dict(BASE, PKinds="KSent", MaxEdits=2, LabelStmts="TRUE", DumpMod=3, UnitKinds="ExhUnits0"),
-    "Perturb_c15_thorough": dict(BASE, PKinds="KSent", MaxEdits=3, MaxStmts=4, UnitKinds="ExhUnits0"),
+    "Perturb_c15_thorough": dict(BASE, PKinds="KSent", MaxEdits=2, LabelStmts="TRUE", DumpMod=1, UnitKinds="ExhUnits0"),
     "Perturb_c15_sim": dict(SIM, PKinds="KSentCmt", MaxEdits=4),
 }
 SUBST = {"UnitKinds", "ConKinds", "SpecKinds", "SimpleV", "DeclV", "UseV", "FormatV", "CompV", "TbindV", "NameChoices", "EndForms", "PKinds", "InsSet"}
